@@ -1,4 +1,5 @@
 """C11 TDD three-valued logic"""
+import eeval
 import eshort
 import ecache
 import ewrap
@@ -45,4 +46,12 @@ def run(ctx):
     ctx.explain("E-UNITS: no variable number meets a level number in the TDD rules crate.")
     nfn, _ = eunits.run(ctx, F, crates=("oxidd_rules_tdd",))
     ctx.floor("E-UNITS", "function bodies analysed", nfn, 25)
-    ctx.not_decided = "eval (beyond the unit discipline of its slot addressing)"
+    ctx.explain("E-EVAL: eval_edge is interpreted in two single steps -- one iteration of the argument loop (the entry of "
+                "var_to_level(var) ends up holding an encoding of the value that does not depend on its previous content: "
+                "the value given last counts; other entries untouched; ZBDD: the counter of true variables is kept exact) and "
+                "one call of `inner` (recurses once into the child for the stored value -- true: first, false: last, "
+                "unknown: middle -- with the same table; complement flag / counter handed down correctly; terminals "
+                "yield their value), plus the initial call and the multi-threaded delegation.")
+    n = eeval.run(ctx, F, only=("tdd",))
+    ctx.floor("E-EVAL", "interpreted eval situations", n, 15)
+    ctx.not_decided = "the value eval assumes for variables missing from its arguments"
